@@ -676,3 +676,55 @@ theorem assign_scope_nested (c : RCtx) (s : RS) (v a b : GoVal) :
     refine single _ s (loop_scope_visited c 2 false [105] _ {} _ [] s (.slice .any [a, b]) [a, b] none none a [b]
       (fun _ => True) (fun env => env.get [120] = v.unwrap) _ (by decide) rfl rfl rfl rfl rfl
       (fun _ _ _ _ => Iff.rfl) hJ trivial (fun s1 _ => hinner s1) (fun s1 _ => hinner s1) (fun _ h => h))
+
+/-! ### The capture equivalence is an equivalence -/
+
+/-- the in-place rendering of a body as a whole template, read off its trace -/
+theorem renderRoot_of_traced_done (c : RCtx) (body : List Node) (env env' : Env) (ops : List WOp)
+    (ht : TracedAt (renderList c body) env ops (.ok .done env')) :
+    (renderRoot c body env).runPure = (twTotal {} ops, .ok .done) := by
+  rw [renderRoot_eq_blockBody, Prog.runPure_bind, tracedAt_blockBody_done c body env env' ops ht {}, twTotal_flush]
+  simp [EOut.withTw, Prog.runPure]
+
+/-- **C12 (capture_equiv, converse).** If `{% capture x %}BODY{% endcapture %}{{ x }}` renders
+    normally as a template, so does `BODY`, to the same bytes: a body that fails, or ends with a
+    stray `break`/`continue`, makes the capture fail or end the same way. With
+    `capture_equiv_root`: the two templates render normally under exactly the same conditions,
+    and then identically. -/
+theorem capture_equiv_root_conv (c : RCtx) (hinc : IncQuiet c) (hO : ∀ b, c.O.chunks (.str b) = .ok [b])
+    (l1 l2 : Nat) (x : Bytes) (body : List Node) (env : Env) (out : Bytes)
+    (h : (renderRoot c [.capture l1 x body, .obj l2 (.var x)] env).runPure = (out, .ok .done)) :
+    (renderRoot c body env).runPure = (out, .ok .done) := by
+  obtain ⟨ops, o, ht⟩ := traced_renderList c hinc body env
+  cases o with
+  | ok st env' =>
+    cases st with
+    | done =>
+      have hplace := renderRoot_of_traced_done c body env env' ops ht
+      have hfwd := capture_equiv_root c hinc hO l1 l2 x body env _ hplace
+      rw [hfwd] at h
+      rw [hplace]
+      exact h
+    | brk e =>
+      have hcap := captureM_of_traced (renderList c body) env env' ops (.brk e) ht {}
+      simp [renderRoot, renderList, renderNode, wrapAt, bind, M.bind, hcap, Prog.bind, Prog.mapFail, pure, M.pure,
+        Prog.runPure, Status.wrap] at h
+    | cont e =>
+      have hcap := captureM_of_traced (renderList c body) env env' ops (.cont e) ht {}
+      simp [renderRoot, renderList, renderNode, wrapAt, bind, M.bind, hcap, Prog.bind, Prog.mapFail, pure, M.pure,
+        Prog.runPure, Status.wrap] at h
+  | err e =>
+    have hcap := captureM_of_traced_err (renderList c body) env ops e ht {}
+    simp [renderRoot, renderList, renderNode, wrapAt, bind, M.bind, hcap, Prog.bind, Prog.mapFail, Prog.runPure] at h
+  | panic w =>
+    have hcap := captureM_of_traced_panic (renderList c body) env ops w ht {}
+    simp [renderRoot, renderList, renderNode, wrapAt, bind, M.bind, hcap, Prog.bind, Prog.mapFail, Prog.runPure] at h
+  | unmodelled w =>
+    have hcap := captureM_of_traced_unmodelled (renderList c body) env ops w ht {}
+    simp [renderRoot, renderList, renderNode, wrapAt, bind, M.bind, hcap, Prog.bind, Prog.mapFail, Prog.runPure] at h
+
+theorem capture_equiv_root_iff (c : RCtx) (hinc : IncQuiet c) (hO : ∀ b, c.O.chunks (.str b) = .ok [b])
+    (l1 l2 : Nat) (x : Bytes) (body : List Node) (env : Env) (out : Bytes) :
+    (renderRoot c [.capture l1 x body, .obj l2 (.var x)] env).runPure = (out, .ok .done) ↔
+      (renderRoot c body env).runPure = (out, .ok .done) :=
+  ⟨capture_equiv_root_conv c hinc hO l1 l2 x body env out, capture_equiv_root c hinc hO l1 l2 x body env out⟩
